@@ -23,21 +23,21 @@ def check_part(ctx, case, outpars, srcpars, dup, features, mult=None):
     where = {}
     for i, ts in enumerate(toks_out):
         for t in ts: where.setdefault(t, []).append(i)
-    last_leaf = -1
+    last_leaf = -1; bad = False      # a failure ends the checks of ITS paragraph only: the others are still examined
     for p in srcpars:
         if p.in_continuation: continue          # hidden content of a vertically merged cell (C04)
         if p.in_link: continue                  # text below a hyperlink is rendered by the link (C10)
         if not p.tokens: continue
         occ = where.get(p.tokens[0], [])
         if not occ:
-            ctx.fail('text of a source paragraph is missing from the output', case, {'paragraph': p.k, 'part': p.part, 'tokens': p.tokens}, features=features); return False
+            ctx.fail('text of a source paragraph is missing from the output', case, {'paragraph': p.k, 'part': p.part, 'tokens': p.tokens}, features=features); bad = True; continue
         # (a part that is the target of k relationships of its kind is extracted k times: once per relationship)
         k = (mult or {}).get(p.part, 1)
         if not dup and any(len(where.get(t, [])) != k or any(toks_out[w].count(t) != 1 for w in where[t]) for t in p.tokens):
-            ctx.fail('a text node occurs more than once (or not at all) in the output', case, {'paragraph': p.k, 'part': p.part, 'tokens': p.tokens, 'where': {t: where.get(t) for t in p.tokens}}, features=features); return False
+            ctx.fail('a text node occurs more than once (or not at all) in the output', case, {'paragraph': p.k, 'part': p.part, 'tokens': p.tokens, 'where': {t: where.get(t) for t in p.tokens}}, features=features); bad = True; continue
         i = occ[0]
         if toks_out[i] != p.tokens:
-            ctx.fail('text migrated between paragraphs or changed order inside one', case, {'paragraph': p.k, 'part': p.part, 'source_tokens': p.tokens, 'output_paragraph': outpars[i]}, features=features); return False
+            ctx.fail('text migrated between paragraphs or changed order inside one', case, {'paragraph': p.k, 'part': p.part, 'source_tokens': p.tokens, 'output_paragraph': outpars[i]}, features=features); bad = True; continue
         # tokens and alt-text markers in document order
         ATOM = re.compile(r'«(\d+)»|----Image alt text---->([^<]*)<')
         want_atoms = []
@@ -47,18 +47,18 @@ def check_part(ctx, case, outpars, srcpars, dup, features, mult=None):
         got_atoms = [('t', m.group(1)) if m.group(1) else ('alt', m.group(2)) for m in ATOM.finditer(outpars[i])]
         clean = not any(src.ptag(x) == 'wp:docPr' and '<' in (x.get('descr') or '') for x in p.own)      # a description with '<' cannot be delimited
         if clean and got_atoms != want_atoms and any(k == 'alt' for k, _ in want_atoms):
-            ctx.fail('text and picture stand-ins of a paragraph are not in document order', case, {'paragraph': p.k, 'part': p.part, 'expected_order': want_atoms, 'output_paragraph': outpars[i]}, features=features); return False
+            ctx.fail('text and picture stand-ins of a paragraph are not in document order', case, {'paragraph': p.k, 'part': p.part, 'expected_order': want_atoms, 'output_paragraph': outpars[i]}, features=features); bad = True; continue
         # every text node in full (also whitespace-only ones), in order
         pos = 0
         for x in p.own:
             if src.ptag(x) in ('w:t', 'm:t') and x.text:
                 k = outpars[i].find(x.text, pos)
                 if k < 0:
-                    ctx.fail('characters of a text node are missing from its paragraph (or out of order)', case, {'paragraph': p.k, 'part': p.part, 'text_node': x.text, 'output_paragraph': outpars[i]}, features=features); return False
+                    ctx.fail('characters of a text node are missing from its paragraph (or out of order)', case, {'paragraph': p.k, 'part': p.part, 'text_node': x.text, 'output_paragraph': outpars[i]}, features=features); bad = True; continue
                 pos = k + len(x.text)
         if not p.encloses_par and not p.nested_in_par:
             if i <= last_leaf and not dup:
-                ctx.fail('paragraphs are not in document order', case, {'paragraph': p.k, 'part': p.part, 'output_index': i, 'previous': last_leaf}, features=features); return False
+                ctx.fail('paragraphs are not in document order', case, {'paragraph': p.k, 'part': p.part, 'output_index': i, 'previous': last_leaf}, features=features); bad = True; continue
             last_leaf = max(last_leaf, i)
         # tabs and breaks of a paragraph without nested paragraphs / links / math
         s = outpars[i]
@@ -69,15 +69,15 @@ def check_part(ctx, case, outpars, srcpars, dup, features, mult=None):
                 if m: s = s[m.end():]
             if s.count('\t') != p.run_tabs:
                 ctx.fail('number of tab characters differs from the number of tabs in the paragraph', case,
-                         {'paragraph': p.k, 'part': p.part, 'expected_tabs': p.run_tabs, 'output_paragraph': outpars[i]}, features=features + (['tabstops'] if any(src.ptag(x) == 'w:tabs' for x in p.own) else [])); return False
+                         {'paragraph': p.k, 'part': p.part, 'expected_tabs': p.run_tabs, 'output_paragraph': outpars[i]}, features=features + (['tabstops'] if any(src.ptag(x) == 'w:tabs' for x in p.own) else [])); bad = True; continue
             if s.count('\n') != p.breaks:
                 ctx.fail('number of newlines differs from the number of breaks in the paragraph', case,
-                         {'paragraph': p.k, 'part': p.part, 'expected_breaks': p.breaks, 'output_paragraph': outpars[i]}, features=features); return False
+                         {'paragraph': p.k, 'part': p.part, 'expected_breaks': p.breaks, 'output_paragraph': outpars[i]}, features=features); bad = True; continue
     known = {t for p in srcpars for t in p.tokens}
     for t in where:
         if t not in known:
             ctx.fail('output contains text that does not derive from the part', case, {'token': t}, features=features); return False
-    return True
+    return not bad
 
 
 def one(ctx, data, meta=None, opts=((False, True), (False, False))):
